@@ -71,15 +71,69 @@ impl Property for Prop {
         "C02"
     }
     fn rule(&self) -> &'static str {
-        "trains: key -> seeded (PDU length from the size lattice / ranges up to 65533 - label, content class, label case incl. substituted first fragment, frag id 0..=255, protocol type >= 0x0600, one of 16 buffer-size schedules: constant 13/14/20/100/4096/4097/4098/5000/70000, random mix with tiny buffers, payload-fits-but-CRC-does-not, land-on-PDU-end-then-tiny, descending ramp, ascending ramp, first buffer 1..8 bytes short of the complete packet followed by exact-fit end buffers; receiver storage == PDU length, 65535 / 65536 / 65537, multiples of 65536, or 70000). batch: the sender works ahead of the receiver: 2..4 PDUs of the same size, label and protocol type are fragmented one after the other from ONE buffer refilled in place (re-use on or off, same or consecutive fragment ids), then all packets are decapsulated in order. Every encap/encap_frag call and every decap call is an evaluation. A train is non-trivial when it was fragmented (>= 2 packets), completed, and the receiver delivered; fingerprint = (PDU length, schedule, label case, frag id, number of packets)."
+        "trains: key -> seeded (PDU length from the size lattice / ranges up to 65533 - label, content class, label case incl. substituted first fragment, frag id 0..=255, protocol type >= 0x0600, one of 16 buffer-size schedules: constant 13/14/20/100/4096/4097/4098/5000/70000, random mix with tiny buffers, payload-fits-but-CRC-does-not, land-on-PDU-end-then-tiny, descending ramp, ascending ramp, first buffer 1..8 bytes short of the complete packet followed by exact-fit end buffers; receiver storage == PDU length, 65535 / 65536 / 65537, multiples of 65536, or 70000). longrun: one encapsulator / decapsulator pair carries 600 fragmented PDUs with one label under re-use limits 255 / 254 / 2 / unlimited. One train in four is preceded by a refused encap_ext call with its label on the same encapsulator; one in four meets a receiver on which a PDU of the same fragment id was abandoned and whose free list was then topped up to full. batch: the sender works ahead of the receiver: 2..4 PDUs of the same size, label and protocol type are fragmented one after the other from ONE buffer refilled in place (re-use on or off, same or consecutive fragment ids), then all packets are decapsulated in order. Every encap/encap_frag call and every decap call is an evaluation. A train is non-trivial when it was fragmented (>= 2 packets), completed, and the receiver delivered; fingerprint = (PDU length, schedule, label case, frag id, number of packets)."
     }
     fn gens(&self, cx: &Cx) -> Vec<Gen> {
-        vec![Gen { name: "trains", count: cx.n(30_000, 2_000_000), exhaustive: false }, Gen { name: "lengths", count: 65534, exhaustive: true }, Gen { name: "batch", count: cx.n(4_000, 300_000), exhaustive: false }]
+        vec![Gen { name: "trains", count: cx.n(30_000, 2_000_000), exhaustive: false }, Gen { name: "lengths", count: 65534, exhaustive: true }, Gen { name: "batch", count: cx.n(4_000, 300_000), exhaustive: false }, Gen { name: "longrun", count: 12, exhaustive: true }]
     }
     fn run_key(&self, cx: &Cx, gen: &str, key: u64, rep: &mut Report) {
         let replay_s = format!("gen={} key={} seed={} profile={}", gen, key, cx.seed, cx.profile);
         let replay = || replay_s.clone();
         let mut rng = Rng::derive(cx.seed, fnv(gen.as_bytes()), key);
+        if gen == "longrun" {
+            // one long-lived encapsulator / decapsulator pair: 600 fragmented PDUs with ONE label under the re-use
+            // limits 255, 254, 2 and unlimited (key % 4), label kinds 6-byte / 3-byte / 3-byte zero (key / 4)
+            use dvb_gse_rust::crc::DefaultCrc;
+            use dvb_gse_rust::gse_encap::{EncapMetadata, EncapStatus, Encapsulator};
+            let limit = [255u8, 254, 2, 0][(key % 4) as usize];
+            let label = gen_label(&mut rng, [0usize, 2, 3][(key / 4) as usize]);
+            let mut enc = Encapsulator::new(DefaultCrc {});
+            if limit > 0 {
+                enc.enable_re_use_label_with_max_consecutive(limit);
+            }
+            let mut dec = plain_dec(2, 64, 2, 64, MandTable::none());
+            for n in 0..600usize {
+                let plen = 20 + n % 30;
+                let pdu = rng.bytes(plen);
+                let mut ctx = None;
+                for step in 0..20 {
+                    let mut b = vec![0u8; 24];
+                    rep.eval();
+                    let r = match ctx {
+                        None => crate::mon::guard(|| enc.encap(&pdu, (n % 256) as u8, EncapMetadata::new(0x0800, label), &mut b)),
+                        Some(c) => crate::mon::guard(|| enc.encap_frag(&pdu, &c, &mut b)),
+                    };
+                    let (nb, c2, done) = match r {
+                        Ok(Ok(EncapStatus::CompletedPkt(k))) => (k as usize, None, true),
+                        Ok(Ok(EncapStatus::FragmentedPkt(k, c))) => (k as usize, Some(c), false),
+                        other => {
+                            rep.violation("C02", "longrun:sender".into(), || format!("PDU {} of a run with one label (re-use limit {}): call {} = {:?}", n + 1, limit, step, other.map(|x| x.map(|s| format!("{:?}", s)))), &replay);
+                            return;
+                        }
+                    };
+                    let d = dec_guard(&mut dec, &b[..nb.min(b.len())]);
+                    let ok = match &d {
+                        Ok(Ok((DecapStatus::CompletedPkt(buf, m), c))) if done => *c == nb && m.pdu_len() == plen && buf[..plen] == pdu[..] && m.label() == label,
+                        Ok(Ok((DecapStatus::FragmentedPkt(m), c))) if !done => *c == nb && m.label() == label,
+                        _ => false,
+                    };
+                    if !ok {
+                        rep.violation("C02", "longrun:receiver".into(), || format!("PDU {} of a run with one label {} (re-use limit {}): packet {} -> {}", n + 1, label_str(&label), limit, step, dec_res_str(&d)), &replay);
+                        return;
+                    }
+                    if let Ok(Ok((DecapStatus::CompletedPkt(bf, _), _))) = d {
+                        let _ = dec.provision_storage(bf);
+                    }
+                    ctx = c2;
+                    if done {
+                        break;
+                    }
+                }
+            }
+            rep.count("longrun.ok");
+            rep.nontrivial(mix(0x10A6_B, key));
+            return;
+        }
         if gen == "batch" {
             // the sender works ahead of the receiver: 2..4 PDUs of the same size, label and type are fragmented one
             // after the other from ONE buffer that is refilled in place, and only then are the packets decapsulated
@@ -239,6 +293,29 @@ impl Property for Prop {
         };
         let mut dec = plain_dec(rx_slots, storage, 2, storage, MandTable::none());
         let cls = format!("sched{}:{}", sched, ["6B", "3B", "bcast", "6Bsub", "3Bsub", "3Bzero"][case]);
+        if !primed && rng.chance(1, 4) {
+            // the same encapsulator first refuses an encap_ext call with this label (buffer too small for the
+            // extension): the refused call must not change how the train is encoded
+            let mut tiny = vec![0u8; 4 + ll + rng.below(4)];
+            let e = vec![dvb_gse_rust::header_extension::Extension::new(0x0233, &[1, 2]).unwrap()];
+            let r = crate::mon::guard(|| s.enc.encap_ext(&pdu, frag_id, dvb_gse_rust::gse_encap::EncapMetadata::new(ptype, label), &mut tiny, e));
+            if matches!(r, Ok(Err(_))) {
+                rep.count("trains.refused-encap_ext-before");
+            }
+        }
+        if rng.chance(1, 4) && storage < 200_000 {
+            // receiver side: a PDU on the same fragment id was started and never finished, and the application has
+            // topped the free list up to full in the meantime ("sufficient storage" is there)
+            let junk = crate::hostile::mk_first(2, &[], frag_id, 50, 0x0800, &[1, 2, 3][..3.min(storage)]);
+            if matches!(dec_guard(&mut dec, &junk), Ok(Ok((DecapStatus::FragmentedPkt(_), _)))) {
+                for _ in 0..8 {
+                    if dec.provision_storage(vec![0u8; storage].into_boxed_slice()).is_err() {
+                        break;
+                    }
+                }
+                rep.count("trains.abandoned-train-and-full-free-list-before");
+            }
+        }
         if primed {
             // the priming history: a packet with the same label; one time in four followed by
             // disable / a packet with ANOTHER label / re-enable (with or without a limit), after which the
